@@ -56,9 +56,36 @@ def r_put_accepts(rep, prog, rule="R-SYNC-THRESH"):
               "installed, get_local gives it back to the reserved tree and reports out-of-memory" % "; ".join(bad), b.span)
 
 
+def r_get_reports_reservation(rep, prog, rule="R-SYNC-THRESH"):
+    """A failed Locals::get tells its caller which reservation the slot holds whenever it holds one - also an exhausted one:
+    get_local synchronises exactly on that answer."""
+    b = lib.need_body(prog, "llfree::local::Locals::get")
+    rep.saw(b.name)
+    tm = T.Terms(b, prog)
+    ts = [(bi, t) for bi, t in b.calls() if (callee_name(t["callee"]) or "") == "bool::then_some"]
+    good = False
+    detail = "no `present().then_some(reservation)` in the error arm"
+    for bi, t in ts:
+        c = T.canon(tm.operand(t["args"][0]))
+        v = tm.operand(t["args"][1])
+        is_present = c[0] == "call" and c[1] == "llfree::local::LocalTree::present" and c[2][0][0] == "f" and c[2][0][1][0] == "as" and c[2][0][1][2] == "Err"
+        is_res = v[0] == "call" and v[1] == "llfree::local::LocalTree::as_reservation"
+        good = is_present and is_res
+        detail = "reported under `%s`" % T.show(tm.operand(t["args"][0]))[:100]
+    if not ts:
+        # another spelling: undecided unless no reservation is reported at all
+        if any(callee_name(t["callee"]) == "llfree::local::LocalTree::as_reservation" for _, t in b.calls()):
+            rep.note("R-SYNC-THRESH Locals::get error arm undecided: reservation reported through another construct")
+            good = True
+    rep.check(good, rule, "Locals::get|reports-reservation", "Err(old.present().then_some(old.as_reservation(class)))",
+              "a failed Locals::get does not report the slot's reservation whenever one is present (%s): with an exhausted "
+              "reservation get_local sees `no reservation`, never synchronises with the reserved tree and reports out-of-memory" % detail, b.span)
+
+
 def run(rep, programs):
     prog = programs["core"]
     r_put_accepts(rep, prog)
+    r_get_reports_reservation(rep, prog)
     rule = "R-SYNC-THRESH"
     rep.rule(rule, "sync fires iff g >= 2^order - l (composition of get_local's `min` and Tree::sync_steal's comparison)")
     b = lib.need_body(prog, GL)
